@@ -14,10 +14,9 @@ import regen_c01
 
 PID = "C01"
 sys.set_int_max_str_digits(0)
-THEOREMS = ["ivt_inverse", "ivt_words_untouched_elsewhere", "ivt_words_describe", "flags_decode", "len_is_sum",
-            "disassemble_cuts_collect", "mbi_roundtrip_except_known", "mbi_roundtrip_refuted", "reexport_stable",
-            "mro_resolution_all_classes", "wf_class_sweep", "class_selection_sweep", "class_selection_refuted",
-            "manifest_flags_and_is_bitwise", "hmac_insert_once_except_known"]
+THEOREMS = ["ivt_inverse", "ivt_words_untouched_elsewhere", "ivt_words_describe", "flags_decode", "len_is_sum_plain_crc",
+            "mbi_roundtrip_plain_crc", "mbi_roundtrip_refuted", "reexport_stable", "mro_resolution_all_classes", "wf_class_sweep",
+            "class_selection_sweep", "class_selection_refuted", "manifest_flags_and_is_bitwise"]
 MIXIN_IDS = regen_c01.MIXIN_IDS
 UNSUPPORTED = {"MixinBcaTable", "MixinBcaObsolete", "MixinFcfObsolete", "MixinCertBlockVx", "MixinBca", "MixinFcf",
                "ExportMixinAppBcaFcf", "ExportMixinAppFcf", "ExportMixinCrcSignBca", "ExportMixinEccSignVx", "MixinManifest"}
@@ -662,7 +661,7 @@ def run(tier):
     except Exception as ex:  # noqa
         rep.obligation("translate:device database + mbi_mixin classes -> Gen/GenMbi.v", False, repr(ex))
     model_ok, mlog = vlib.coq_make(["Model/MbiIoModel.vo"])
-    vlib.check_theorems(rep, PID, THEOREMS, ["Proofs/MbiProofs.vo"])
+    vlib.check_theorems(rep, PID, THEOREMS, ["Proofs/MbiProofs.vo", "Proofs/MbiRtProofs.vo", "Proofs/MbiSweepProofs.vo"])
     vlib.audit(rep)
     if d is None:
         try:
@@ -824,7 +823,7 @@ def run(tier):
                       "hand model Model/MbiModel.v tied by correspondence",
                       "primitive outputs (signature, HMAC, AES-CTR key stream, digest) are inputs of the model: C02/C09",
                       "certificate blocks are byte strings with a length: C03", "CPython semantics of the untranslated code"],
-        checker_cmd="coqc -R . V Props/C01/*.v (after make Proofs/MbiProofs.vo)",
+        checker_cmd="coqc -R . V Props/C01/*.v (after make Proofs/MbiProofs.vo Proofs/MbiRtProofs.vo Proofs/MbiSweepProofs.vo)",
         assumptions=["latest revision of every family", "application given as a raw binary file (ELF/S19/HEX loading is C16)",
                      "BCA/FCF based families (mc56f81xxx, mwct20xx, mcxc) are exercised by the oracles only, not modelled",
                      "X.509 / certificate block content is opaque (length and header words only)"])
